@@ -1,4 +1,5 @@
 import OH.Props.C19
+import OH.Props.TablesC19
 #print axioms OH.Props.C19.new_some_iff
 #print axioms OH.Props.C19.new_eq
 #print axioms OH.Props.C19.fromMins_some_iff
@@ -15,3 +16,4 @@ import OH.Props.C19
 #print axioms OH.Props.C19.display_spec
 #print axioms OH.Props.C19.toNaiveTime_some_iff
 #print axioms OH.Props.C19.toNaiveTime_fromNaiveTime
+#print axioms OH.Props.TablesC19.C19_midnights
